@@ -951,7 +951,7 @@ func pureMods(v *Verifier, c *ssa.CallCommon, maps map[string]string) bool { ret
 // unconstrained (beyond its type).
 var pureLib = []string{"strings.Join", "strings.Split", "strings.Contains", "strings.HasPrefix", "strings.HasSuffix",
 	"strings.Repeat", "strings.Fields", "strings.Index", "strings.EqualFold", "strings.TrimLeft", "strings.TrimRight", "strings.Trim",
-	"strconv.Itoa", "strconv.Quote", "strconv.FormatInt", "os.IsNotExist", "os.IsExist", "filepath.Join",
+	"strconv.Itoa", "strconv.Quote", "strconv.FormatInt", "os.IsNotExist", "os.IsExist", "os.Stat",
 	"utf8.RuneCount", "utf8.RuneLen", "utf8.DecodeRune", "utf8.RuneCountInString", "unicode.IsSpace", "unicode.IsLetter", "unicode.IsDigit",
 	"sort.Strings"}
 
@@ -1249,6 +1249,80 @@ func init() {
 	}
 	nativeMods["bytes.(*Buffer).Read"] = func(v *Verifier, c *ssa.CallCommon, maps map[string]string) bool {
 		maps["G!bufver"] = arr("Int", "Int")
+		maps[elemMapNameT(types.Typ[types.Uint8])] = arr("Int", arr("Int", "Int"))
+		return false
+	}
+	// path construction as deterministic (uninterpreted) functions, so that contracts can say
+	// which path a database name maps to
+	nativeStubs["filepath.Join"] = func(v *Verifier, st *State, in ssa.Instruction, c *ssa.CallCommon, args []Value, retT types.Type) Value {
+		if elems, ok := v.varargElems(st, c.Args[0]); ok && len(elems) == 3 {
+			v.env.ctx.declFun("path.join3", []string{"Str", "Str", "Str"}, "Str")
+			return Value{T: app("path.join3", elems...), Sort: "Str", GoT: retT}
+		}
+		r := v.freshValue(st, "ret.lib", retT)
+		return r
+	}
+	nativeMods["filepath.Join"] = pureMods
+	nativeStubs["strings.ToLower"] = func(v *Verifier, st *State, in ssa.Instruction, c *ssa.CallCommon, args []Value, retT types.Type) Value {
+		v.env.ctx.declFun("str.lower", []string{"Str"}, "Str")
+		return Value{T: app("str.lower", args[0].T), Sort: "Str", GoT: retT}
+	}
+	nativeMods["strings.ToLower"] = pureMods
+	// io.ReadFull on a reader with a ghost count of remaining bytes: a full read, a clean end
+	// (0 bytes, io.EOF), a short read (io.ErrUnexpectedEOF) or some other I/O error.
+	nativeStubs["io.ReadFull"] = func(v *Verifier, st *State, in ssa.Instruction, c *ssa.CallCommon, args []Value, retT types.Type) Value {
+		ref := args[0].T
+		if args[0].Sort == "Val" {
+			ref = app("valref", args[0].T)
+		}
+		srt := arr("Int", "Int")
+		rem := v.env.heapGet(st, "G!ioRemaining", srt)
+		cur := sel2(rem, ref)
+		st.assume("(>= " + cur + " 0)")
+		want := sliceLen(args[1].T)
+		ioPkg := v.prog.typPkgs["io"]
+		eof := v.env.globalValue(st, "io", ioPkg.Scope().Lookup("EOF").(*types.Var))
+		ueof := v.env.globalValue(st, "io", ioPkg.Scope().Lookup("ErrUnexpectedEOF").(*types.Var))
+		other := v.env.freshErr(st)
+		isOther := v.env.ctx.freshConst("io.fail", "Bool")
+		n := v.env.ctx.freshConst("io.n", "Int")
+		errT := ite(isOther, other.T, ite(eq(want, "0"), "VNil", ite(eq(cur, "0"), eof.T, ite("(< "+cur+" "+want+")", ueof.T, "VNil"))))
+		nT := ite(isOther, n, ite("(< "+cur+" "+want+")", cur, want))
+		st.assume("(and (<= 0 " + n + ") (< " + n + " (+ " + want + " 1)))")
+		left := ite(isOther, v.env.ctx.freshConst("io.left", "Int"), ite("(< "+cur+" "+want+")", "0", sub(cur, want)))
+		v.env.heapSet(st, "G!ioRemaining", srt, sto(rem, ref, left))
+		st.assume("(>= " + sel2(v.env.heapGet(st, "G!ioRemaining", srt), ref) + " 0)")
+		// the destination bytes become unknown
+		name := elemMapNameT(types.Typ[types.Uint8])
+		bs := arr("Int", arr("Int", "Int"))
+		curB := v.env.heapGet(st, name, bs)
+		v.env.heapSet(st, name, bs, sto(curB, sliceBase(args[1].T), v.env.ctx.freshConst("readbytes", arr("Int", "Int"))))
+		tup := retT.(*types.Tuple)
+		return Value{Tuple: []Value{{T: nT, Sort: "Int", GoT: tup.At(0).Type()}, {T: errT, Sort: "Val", GoT: tup.At(1).Type()}}, GoT: retT}
+	}
+	nativeMods["io.ReadFull"] = func(v *Verifier, c *ssa.CallCommon, maps map[string]string) bool {
+		maps["G!ioRemaining"] = arr("Int", "Int")
+		maps[elemMapNameT(types.Typ[types.Uint8])] = arr("Int", arr("Int", "Int"))
+		return false
+	}
+	for _, k := range []string{"binary.(littleEndian).Uint32", "binary.(littleEndian).Uint64", "binary.(littleEndian).Uint16"} {
+		nativeStubs[k] = func(v *Verifier, st *State, in ssa.Instruction, c *ssa.CallCommon, args []Value, retT types.Type) Value {
+			r := v.freshValue(st, "le", retT)
+			v.assumeTypeFacts(st, r)
+			return r
+		}
+		nativeMods[k] = pureMods
+	}
+	nativeStubs["binary.(littleEndian).PutUint32"] = func(v *Verifier, st *State, in ssa.Instruction, c *ssa.CallCommon, args []Value, retT types.Type) Value {
+		dst := args[len(args)-2]
+		v.checkSite(st, in, "index", "(>= "+sliceLen(dst.T)+" 4)", "PutUint32 on a slice shorter than 4 bytes")
+		name := elemMapNameT(types.Typ[types.Uint8])
+		bs := arr("Int", arr("Int", "Int"))
+		curB := v.env.heapGet(st, name, bs)
+		v.env.heapSet(st, name, bs, sto(curB, sliceBase(dst.T), v.env.ctx.freshConst("putbytes", arr("Int", "Int"))))
+		return Value{}
+	}
+	nativeMods["binary.(littleEndian).PutUint32"] = func(v *Verifier, c *ssa.CallCommon, maps map[string]string) bool {
 		maps[elemMapNameT(types.Typ[types.Uint8])] = arr("Int", arr("Int", "Int"))
 		return false
 	}
